@@ -31,6 +31,7 @@ Record rrs := mkRrs {
   rr_q : list (dir * list (Z * fkind));           (* emitted, not yet handed over *)
   rr_oc : list (N * list cframe); rr_os : list (N * list sframe);   (* observed emissions per rpc *)
   rr_sh : list (N * shape);
+  rr_inv : list N;                                (* RPCs made through Invoke *)
   rr_off : bool;                                  (* nothing is judged any more *)
   rr_fails : list failure
 }.
@@ -63,16 +64,16 @@ Definition on_rpc (st : rrs) (r : N) (ls : list rlbl) : rrs :=
                                         | Some s => match rstep false s l with Some s' => Some (settle 6 s') | None => None end
                                         | None => None end) ls (Some s) in
       match go with
-      | Some s' => mkRrs (lset r s' (rr_m st)) (rr_ids st) (rr_q st) (rr_oc st) (rr_os st) (rr_sh st) (rr_off st) (rr_fails st)
-      | None => mkRrs (lrem r (rr_m st)) (rr_ids st) (rr_q st) (rr_oc st) (rr_os st) (rr_sh st) (rr_off st)
+      | Some s' => mkRrs (lset r s' (rr_m st)) (rr_ids st) (rr_q st) (rr_oc st) (rr_os st) (rr_sh st) (rr_inv st) (rr_off st) (rr_fails st)
+      | None => mkRrs (lrem r (rr_m st)) (rr_ids st) (rr_q st) (rr_oc st) (rr_os st) (rr_sh st) (rr_inv st) (rr_off st)
                       (rr_fails st ++ [mkFail 1390 (match ls with l :: _ => lbl_code l | [] => 0 end) (Z.of_N r) (Z.of_nat (length ls))])   (* 139x: why an RPC left the replay (not failures) *)
       end
   end.
 Definition drop_rpc (st : rrs) (r : N) : rrs :=
-  mkRrs (lrem r (rr_m st)) (rr_ids st) (rr_q st) (rr_oc st) (rr_os st) (rr_sh st) (rr_off st)
+  mkRrs (lrem r (rr_m st)) (rr_ids st) (rr_q st) (rr_oc st) (rr_os st) (rr_sh st) (rr_inv st) (rr_off st)
         (rr_fails st ++ [mkFail 1391 0 (Z.of_N r) 0]).
 Definition rfail (st : rrs) (f : list failure) : rrs :=
-  mkRrs (rr_m st) (rr_ids st) (rr_q st) (rr_oc st) (rr_os st) (rr_sh st) (rr_off st) (rr_fails st ++ f).
+  mkRrs (rr_m st) (rr_ids st) (rr_q st) (rr_oc st) (rr_os st) (rr_sh st) (rr_inv st) (rr_off st) (rr_fails st ++ f).
 
 Definition ckind (k : fkind) : option cframe :=
   match k with KNew _ _ _ _ _ => Some FNew | KMsg _ _ | KMore _ => Some FReq | KHalf => Some FHalf
@@ -113,14 +114,16 @@ Definition rr_step (tr : trace) (st : rrs) (e : N * ev) : rrs :=
   match e with
   | NewCall r t sh _ _ _ to multi =>
       if N.eqb t 0 && negb multi && match to with None => true | Some _ => false end
-      then mkRrs (lset r r_init (rr_m st)) (rr_ids st) (rr_q st) (lset r [] (rr_oc st)) (lset r [] (rr_os st)) (lset r sh (rr_sh st)) false (rr_fails st)
+      then mkRrs (lset r r_init (rr_m st)) (rr_ids st) (rr_q st) (lset r [] (rr_oc st)) (lset r [] (rr_os st)) (lset r sh (rr_sh st)) (rr_inv st) false (rr_fails st)
       else (* not replayed, but it exists: the table sizes are then not compared *)
-           mkRrs (rr_m st) (rr_ids st) (rr_q st) (rr_oc st) (rr_os st) (lset r sh (rr_sh st)) false (rr_fails st)
+           mkRrs (rr_m st) (rr_ids st) (rr_q st) (rr_oc st) (rr_os st) (lset r sh (rr_sh st)) (rr_inv st) false (rr_fails st)
   | Ret (Cw r) ONew res _ _ _ _ _ _ _ =>
       if res_is_ok res then
         (* Invoke performs newStream, SendMsg and CloseSend in one go (its send is logged in the same action
            as its start, its half-close is not logged) *)
-        if is_invoke tr act r then on_rpc st r [LK CNew; LK CSend; LK CHalf] else on_rpc st r [LK CNew]
+        if is_invoke tr act r
+        then on_rpc (mkRrs (rr_m st) (rr_ids st) (rr_q st) (rr_oc st) (rr_os st) (rr_sh st) (r :: rr_inv st) (rr_off st) (rr_fails st)) r [LK CNew; LK CSend; LK CHalf]
+        else on_rpc st r [LK CNew]
       else drop_rpc st r
   | Call (Cw r) OSend _ _ _ _ _ =>
       if is_invoke tr act r then st else on_rpc st r [LK CSend]
@@ -128,6 +131,9 @@ Definition rr_step (tr : trace) (st : rrs) (e : N * ev) : rrs :=
       (* a send that fails (a message that cannot be encoded, a stream that ended meanwhile, a refused
          second message) may or may not have put frames on the wire: the RPC leaves the replay *)
       if res_is_ok res then st else drop_rpc st r
+  | Ret (Cr r) ORecv res _ _ _ _ _ _ _ =>
+      (* an Invoke that fails may have skipped its SendMsg or CloseSend: it leaves the replay *)
+      if existsb (N.eqb r) (rr_inv st) && negb (res_is_ok res) && negb (res_eqb res REof) then drop_rpc st r else st
   | Call (Cw r) OCloseSend _ _ _ _ _ => on_rpc st r [LK CHalf]
   | Ret (Cx r) OCancel _ _ _ _ _ _ _ _ => on_rpc st r [LK CCtxEnd]
   | Call (Hw r) OSendHdr _ _ _ _ _ => on_rpc st r [LV HSendHdr]
@@ -141,7 +147,7 @@ Definition rr_step (tr : trace) (st : rrs) (e : N * ev) : rrs :=
   | Emit d t id k true =>
       if negb (N.eqb t 0) then st else
       let st := mkRrs (rr_m st) (match k with KNew (Some r) _ _ _ _ => (id, r) :: rr_ids st | _ => rr_ids st end)
-                      (dq_set d (dq_get d (rr_q st) ++ [(id, k)]) (rr_q st)) (rr_oc st) (rr_os st) (rr_sh st) (rr_off st) (rr_fails st) in
+                      (dq_set d (dq_get d (rr_q st) ++ [(id, k)]) (rr_q st)) (rr_oc st) (rr_os st) (rr_sh st) (rr_inv st) (rr_off st) (rr_fails st) in
       match zget id (rr_ids st) with
       | None => st
       | Some r =>
@@ -152,7 +158,7 @@ Definition rr_step (tr : trace) (st : rrs) (e : N * ev) : rrs :=
               | Some f =>
                   let st := mkRrs (rr_m st) (rr_ids st) (rr_q st)
                                   (lset r (match lget r (rr_oc st) with Some l => l ++ [f] | None => [f] end) (rr_oc st))
-                                  (rr_os st) (rr_sh st) (rr_off st) (rr_fails st) in
+                                  (rr_os st) (rr_sh st) (rr_inv st) (rr_off st) (rr_fails st) in
                   match f, lget r (rr_m st) with
                   | FCwu, Some s =>
                       match rstep false s (LK CWuCheck) with
@@ -169,7 +175,7 @@ Definition rr_step (tr : trace) (st : rrs) (e : N * ev) : rrs :=
               | Some f =>
                   let st := mkRrs (rr_m st) (rr_ids st) (rr_q st) (rr_oc st)
                                   (lset r (match lget r (rr_os st) with Some l => l ++ [f] | None => [f] end) (rr_os st))
-                                  (rr_sh st) (rr_off st) (rr_fails st) in
+                                  (rr_sh st) (rr_inv st) (rr_off st) (rr_fails st) in
                   match f, lget r (rr_m st) with
                   | FSwu, Some s =>
                       match rstep false s (LV SWuCheck) with
@@ -187,7 +193,7 @@ Definition rr_step (tr : trace) (st : rrs) (e : N * ev) : rrs :=
       match dq_get d (rr_q st) with
       | [] => st
       | (id, k) :: rest =>
-          let st := mkRrs (rr_m st) (rr_ids st) (dq_set d rest (rr_q st)) (rr_oc st) (rr_os st) (rr_sh st) (rr_off st) (rr_fails st) in
+          let st := mkRrs (rr_m st) (rr_ids st) (dq_set d rest (rr_q st)) (rr_oc st) (rr_os st) (rr_sh st) (rr_inv st) (rr_off st) (rr_fails st) in
           match zget id (rr_ids st) with
           | None => st
           | Some r =>
@@ -219,7 +225,7 @@ Definition rr_step (tr : trace) (st : rrs) (e : N * ev) : rrs :=
   | Stim _ _ _ _ | Teardown | Panic =>
       (* once the tunnel itself is disturbed, frames of goroutines that are still running may or may not
          reach the carrier: the replay stops (the channel's end is covered by mon_C04 and RpcEnd.v) *)
-      mkRrs (rr_m st) (rr_ids st) (rr_q st) (rr_oc st) (rr_os st) (rr_sh st) true (rr_fails st)
+      mkRrs (rr_m st) (rr_ids st) (rr_q st) (rr_oc st) (rr_os st) (rr_sh st) (rr_inv st) true (rr_fails st)
   | Probe _ ctabs _ stabs _ =>
       (* the observable state after the action: emissions per stream, table sizes *)
       let pending r := negb (N.eqb (n_calls (Cw r) act tr) (n_rets (Cw r) act tr)) || negb (N.eqb (n_calls (Hw r) act tr) (n_rets (Hw r) act tr)) ||
@@ -250,13 +256,13 @@ Definition rr_step (tr : trace) (st : rrs) (e : N * ev) : rrs :=
 
 Definition mon_rpcrun (c : cfg) (tr : trace) : list failure :=
   if expect_fc c && negb (c_rawc c) && negb (c_raws c)
-  then filter (fun f => negb ((1390 <=? f_code f) && (f_code f <=? 1399))) (rr_fails (fold_left (rr_step tr) tr (mkRrs [] [] [] [] [] [] false [])))
+  then filter (fun f => negb ((1390 <=? f_code f) && (f_code f <=? 1399))) (rr_fails (fold_left (rr_step tr) tr (mkRrs [] [] [] [] [] [] [] false [])))
   else [].
 Definition mon_rpcrun_debug (c : cfg) (tr : trace) : list failure :=
   if negb (expect_fc c && negb (c_rawc c) && negb (c_raws c)) then [] else
-  rr_fails (fold_left (rr_step tr) tr (mkRrs [] [] [] [] [] [] false [])).
+  rr_fails (fold_left (rr_step tr) tr (mkRrs [] [] [] [] [] [] [] false [])).
 (* how many RPCs were replayed to the end of the trace (for the evidence) *)
 Definition rpcrun_judged (c : cfg) (tr : trace) : nat :=
   if expect_fc c && negb (c_rawc c) && negb (c_raws c)
-  then length (rr_m (fold_left (rr_step tr) tr (mkRrs [] [] [] [] [] [] false [])))
+  then length (rr_m (fold_left (rr_step tr) tr (mkRrs [] [] [] [] [] [] [] false [])))
   else 0.
